@@ -27,8 +27,8 @@ ASSUMPTIONS = [
     "the fresh-interpreter load is sampled (1 in 40 quick, 1 in 12 thorough) because each costs an interpreter start",
 ]
 BUDGET = {
-    "quick": {"cases": 1200, "seconds": 60, "shards": 8},
-    "thorough": {"cases": 16000, "seconds": 540, "shards": 16},
+    "quick": {"cases": 1200, "seconds": 90, "shards": 8},
+    "thorough": {"cases": 24000, "seconds": 900, "shards": 16},
 }
 REQUIRED_OBS = ["loaded_snapshot_compared", "loaded_predictions_compared", "original_unaltered_checked", "fresh_interpreter_loads", "same_path_resave_checked", "asymmetric_matrix_cases",
                 "mode:pre", "mode:fly", "kind:supervised", "kind:semi", "kind:knn", "kind:unsup"]
